@@ -126,6 +126,10 @@ def make_table(tspec):
 def build_backend(ctor, ev):
     n_cfg = ev.shape[0]
     hp = pd.DataFrame({"x": np.arange(n_cfg), "y": np.arange(n_cfg)[::-1]})
+    if ctor["table"].get("swap_cols"):
+        # the columns of the table in another order than the keys of the configuration space (the constructor only
+        # compares the sets of names); the swapped pair (y, x) is a row of the table as well
+        hp = hp[["y", "x"]]
     names = ["m%d" % i for i in range(ev.shape[3])]
     names[ctor["table"]["tcol"]] = ET
     fids = ctor["table"]["fids"]
@@ -168,6 +172,8 @@ def gen_ctor(rng):
              "fids": fids, "n_obj": n_obj, "tcol": rng.randrange(n_obj),
              "time": rng.choice(["cumulative", "cumulative", "noisy", "nonmonotone", "mixed", "flat", "float"]),
              "vals": rng.choice(["dyadic", "dyadic", "float"])}
+    if rng.random() < 0.3:
+        table["swap_cols"] = True
     n_seeds = table["n_seeds"]
     return {"delays": delays, "sleep": frac_str(rng.choice([0.0, 0.125, 0.25, 0.5, 1.0, 0.1])),
             "guard": frac_str(guard), "min_step": frac_str(min_step), "table": table,
